@@ -492,3 +492,18 @@ func CertHolding(k *Key) (*zx509.Certificate, error) {
 	}
 	return zx509.ParseCertificate(der)
 }
+
+// CAHolding: a CA certificate (certSign + crlSign, SKID) created by the standard library and parsed
+// by zcrypto whose subject key is k.
+func CAHolding(k *Key) (*zx509.Certificate, error) {
+	_, ku := ExtraValue(Extra{Kind: "ku", N: 1 | 32 | 64})
+	exts := []stdpkix.Extension{stdExt("2.5.29.19", true, must(stdasn1.Marshal(stdBC{true, -1}))), stdExt("2.5.29.15", true, ku),
+		stdExt("2.5.29.14", false, must(stdasn1.Marshal([]byte{0xc0, 0xc1, 0xc2})))}
+	tmpl := &stdx509.Certificate{SerialNumber: big.NewInt(3001), RawSubject: StdRDN(Name{CN: "CA key holder " + k.Type}),
+		NotBefore: T2000, NotAfter: T2000.AddDate(60, 0, 0), ExtraExtensions: exts}
+	der, err := stdx509.CreateCertificate(rand.Reader, tmpl, tmpl, k.StdPub, k.StdPriv)
+	if err != nil {
+		return nil, err
+	}
+	return zx509.ParseCertificate(der)
+}
